@@ -13,27 +13,51 @@ Definition forget_last (s : hstate) : hstate :=
 
 Definition is_value (e : elem) : bool := match e with EVal _ => true | _ => false end.
 
-(** offer the element to the members in order.  Result: consumed?, the new
-    member states, the iterator to continue from.  [pinned = true] models the
-    tree before "fix: ... free value ..." (no forgetting). *)
-Fixpoint offer (pinned : bool) (cs : list cfg) (ss : list hstate) (e : elem) (cur : it)
+Definition has_last (s : hstate) : bool := match last s with Some _ => true | None => false end.
+
+(** offer the element to the members selected by [sel], in order.  Result:
+    consumed?, the new member states, the iterator to continue from.
+    [pinned = true] models the tree before "fix: ... free value ..." (no
+    forgetting). *)
+Fixpoint offer_sel (sel : hstate -> bool) (pinned : bool) (cs : list cfg) (ss : list hstate) (e : elem) (cur : it)
   : res (ares * list hstate * it) :=
   match cs, ss with
   | c :: cr, s :: sr =>
-      do r <- eval_single c s false e cur;
-      let '(a, s1, i1) := r in
-      match a with
-      | AConsumed =>
-          Ok (AConsumed, s1 :: (if pinned || is_value e then sr else map forget_last sr), i1)
-      | AUnknown =>
-          do r2 <- offer pinned cr sr e cur;
-          let '(a2, sr', i2) := r2 in
-          Ok (a2, (match a2 with
-                   | AConsumed => if pinned || is_value e then s1 else forget_last s1
-                   | AUnknown => s1 end) :: sr', i2)
-      end
+      if sel s then
+        do r <- eval_single c s false e cur;
+        let '(a, s1, i1) := r in
+        match a with
+        | AConsumed =>
+            Ok (AConsumed, s1 :: (if pinned || is_value e then sr else map forget_last sr), i1)
+        | AUnknown =>
+            do r2 <- offer_sel sel pinned cr sr e cur;
+            let '(a2, sr', i2) := r2 in
+            Ok (a2, (match a2 with
+                     | AConsumed => if pinned || is_value e then s1 else forget_last s1
+                     | AUnknown => s1 end) :: sr', i2)
+        end
+      else
+        do r2 <- offer_sel sel pinned cr sr e cur;
+        let '(a2, sr', i2) := r2 in
+        Ok (a2, (match a2 with
+                 | AConsumed => if pinned || is_value e then s else forget_last s
+                 | AUnknown => s end) :: sr', i2)
   | _, _ => Ok (AUnknown, ss, cur)
   end.
+
+(** Groups::evalArguments, one element: an argument is offered to all
+    members in order; a free value first to the member that identified the last
+    argument (the only one whose last argument is set), then to the others *)
+Definition offer (pinned : bool) (cs : list cfg) (ss : list hstate) (e : elem) (cur : it)
+  : res (ares * list hstate * it) :=
+  if is_value e && negb pinned then
+    do r <- offer_sel has_last pinned cs ss e cur;
+    let '(a, ss1, i1) := r in
+    match a with
+    | AConsumed => Ok (a, ss1, i1)
+    | AUnknown => offer_sel (fun s => negb (has_last s)) pinned cs ss1 e cur
+    end
+  else offer_sel (fun _ => true) pinned cs ss e cur.
 
 Fixpoint iterate_group (fuel : nat) (pinned : bool) (cs : list cfg) (ss : list hstate)
     (cur : option (elem * it)) : res (list hstate) :=
